@@ -10,7 +10,8 @@ EXPLANATION = ("(1) set-once: in SharedResultSet::set the store is dominated by 
                "run_impl has no Ok return; (3) attribution tables ConnectStream::run (how each way the session stream ends is reported) / with_driver_error / no_connect / From<quinn::ConnectionError> / "
                "with_connect_error; (4) every Driver waiter maps queue closure to Err(self.result().await), open_* maps None to NotConnected; "
                "(5) handle drop: the worker select has a branch on driver_result.closed() that returns NotConnected and Driver::init moves only "
-               "the setter into the task; (6) panic inventory of the worker and Driver API with structural discharges where the invariant is visible.")
+               "the setter into the task; (6) panic inventory of the worker and Driver API with structural discharges where the invariant is visible."
+               " Also (C09-R7/R8): the worker loop parks only at its select! (handlers never await); finish() takes its result from stopped(); the accept wrappers report the driver's error.")
 NOT_DECIDED = ["boundedness in time", "absence of panics that depend on quinn's run-time state (listed as assumptions)"]
 TRUSTED = ["rustc MIR / coroutine layout", "tokio watch::Sender::{send_if_modified,closed} semantics", "quinn close_reason()"]
 
